@@ -418,6 +418,8 @@ class ConcEngine(object):
             val = getattr(st, name)
             if isinstance(val, S.SimLock) and val.locked():
                 return Violation({"C08"}, "locked", "locked:lock-held", {"lock": name, "scenario": scenario})
+        if self.prog.get("knobs", {}).get("followups") == "cheap":
+            return None  # (the follow-up calls run in full in the C08 / C16 checks)
         # follow-up calls on every identifier involved (single task: blocking = Deadlock)
         used_pids = set()
         used_docs = set()
